@@ -3,12 +3,23 @@ use std::path::PathBuf;
 
 fn main() {
     let args: Vec<String> = std::env::args().skip(1).collect();
-    if args.len() < 2 && args.first().map(|a| a != "gen-fuzz-seeds").unwrap_or(true) {
+    if args.len() < 2 && args.first().map(|a| a != "gen-fuzz-seeds" && a != "dump-fuzz").unwrap_or(true) {
         eprintln!("usage: verif <Cxx> <quick|thorough> | verif <Cxx> --replay <file>");
         std::process::exit(2);
     }
     if args[0] == "gen-fuzz-seeds" {
         harness::fuzz::write_seeds(&PathBuf::from(std::env::var("VERIF_ROOT").unwrap_or_else(|_| "/verif".into())));
+        return;
+    }
+    if args[0] == "dump-fuzz" {
+        // verif dump-fuzz <target> <hex>: the structured case a fuzz input decodes to (debugging aid)
+        let hex = args.get(2).cloned().unwrap_or_default();
+        let bytes: Vec<u8> = (0..hex.len() / 2).filter_map(|i| u8::from_str_radix(&hex[2 * i..2 * i + 2], 16).ok()).collect();
+        match args[1].as_str() {
+            "c04_history" => println!("{}", serde_json::to_string(&harness::fuzz::raw_case(&bytes)).unwrap()),
+            "c10_frag" => println!("{}", serde_json::to_string(&harness::fuzz::frag_case(&bytes)).unwrap()),
+            t => eprintln!("no structured decoder registered for {}", t),
+        }
         return;
     }
     let prop = args[0].clone();
